@@ -181,6 +181,21 @@ func (s *Sched) compatible(p any, mode int) bool {
 	return ls.writer == nil
 }
 
+// writerPending reports whether the lock is read-held and some parked goroutine
+// has asked for it in write mode.
+func (s *Sched) writerPending(p any) bool {
+	ls := s.locks[p]
+	if ls == nil || ls.readers == 0 {
+		return false
+	}
+	for _, g := range s.parked {
+		if g.isLock && g.lockP == p && g.lockM == ModeW {
+			return true
+		}
+	}
+	return false
+}
+
 func (s *Sched) grant(g *G, p any, mode int) {
 	ls := s.locks[p]
 	if ls == nil {
@@ -267,6 +282,11 @@ func (s *Sched) EnabledG() []*G {
 	var out []*G
 	for _, g := range s.parked {
 		if g.isLock && !s.compatible(g.lockP, g.lockM) {
+			continue
+		}
+		if g.isLock && g.lockM != ModeW && s.writerPending(g.lockP) {
+			// sync.RWMutex semantics: while readers hold the lock and a writer has asked
+			// for it, new readers wait behind the writer (a recursive RLock deadlocks).
 			continue
 		}
 		out = append(out, g)
